@@ -8,6 +8,7 @@ package c46
 
 import (
 	"fmt"
+	"strings"
 	"sync"
 
 	"google.golang.org/protobuf/proto"
@@ -58,6 +59,7 @@ func fl(name string, num int32, l descriptorpb.FieldDescriptorProto_Label, t des
 	return f
 }
 func tn(name string) mod   { return func(f *fdp) { f.TypeName = proto.String("." + abPkg + "." + name) } }
+func abs(name string) mod  { return func(f *fdp) { f.TypeName = proto.String("." + name) } }
 func def(s string) mod     { return func(f *fdp) { f.DefaultValue = proto.String(s) } }
 func jsn(s string) mod     { return func(f *fdp) { f.JsonName = proto.String(s) } }
 func oneofIdx(i int32) mod { return func(f *fdp) { f.OneofIndex = proto.Int32(i) } }
@@ -145,12 +147,14 @@ func abSchema() []*descriptorpb.FileDescriptorProto {
 		fl("o_int64", 110, lOpt, tInt64, oneofIdx(1)), fl("o_string", 111, lOpt, tString, oneofIdx(1)))
 	leaf := &dp{Name: proto.String("AbLeaf"), Field: []*fdp{fl("req", 1, lReq, tString), fl("opt", 2, lOpt, tFixed32, def("9"))}}
 	file2 := &descriptorpb.FileDescriptorProto{Name: proto.String("c46/ab2.proto"), Package: proto.String(abPkg), Syntax: proto.String("proto2"),
-		Dependency: []string{"c46/ab_enum.proto", "c46/ab3.proto"}, MessageType: []*dp{m2, leaf},
+		Dependency: []string{"c46/ab_enum.proto", "c46/ab3.proto", "proto2_20160225_2fc053c5/test.proto", "proto2_20190205_c823c79e/test.proto"}, MessageType: []*dp{m2, leaf},
 		Extension: []*fdp{
 			fl("ext_int32", 200, lOpt, tInt32, extendee("AbMsg2"), def("-5")), fl("ext_string", 201, lOpt, tString, extendee("AbMsg2")),
 			fl("ext_bytes", 202, lOpt, tBytes, extendee("AbMsg2")), fl("ext_rep_sint", 203, lRep, tSint64, extendee("AbMsg2")),
 			fl("ext_pack_fixed", 204, lRep, tFixed32, extendee("AbMsg2"), packed(true)), fl("ext_rep_string", 205, lRep, tString, extendee("AbMsg2")),
-			fl("ext_msg", 1000, lOpt, tMessage, extendee("AbMsg2"), tn("AbMsg2")), fl("ext_rep_leaf", 1001, lRep, tMessage, extendee("AbMsg2"), tn("AbLeaf")),
+			fl("ext_msg", 1000, lOpt, tMessage, extendee("AbMsg2"), abs("google.golang.org.proto2_20160225.Message.ChildMessage")),
+			fl("ext_rep_sibling", 1001, lRep, tMessage, extendee("AbMsg2"), abs("google.golang.org.proto2_20190205.SiblingMessage")),
+			fl("ext_enum", 1002, lOpt, tEnum, extendee("AbMsg2"), abs("google.golang.org.proto2_20190205.SiblingEnum"), def("BRAVO")),
 			fl("ext_double", 536870911, lOpt, tDouble, extendee("AbMsg2")), fl("ext_bool", 299, lOpt, tBool, extendee("AbMsg2"), def("true")),
 		}}
 	return []*descriptorpb.FileDescriptorProto{enumFile, file3, file2}
@@ -172,7 +176,7 @@ func reference() (*refSchema, error) {
 	refOnce.Do(func() {
 		rs := &refSchema{files: new(protoregistry.Files), types: new(protoregistry.Types)}
 		for _, p := range abSchema() {
-			fd, err := protodesc.NewFile(p, rs.files)
+			fd, err := protodesc.NewFile(p, withGlobal{rs.files})
 			if err != nil {
 				refErr = fmt.Errorf("harness: hand-written schema %s does not link: %v", p.GetName(), err)
 				return
@@ -192,6 +196,62 @@ func reference() (*refSchema, error) {
 		refS = rs
 	})
 	return refS, refErr
+}
+
+// withGlobal resolves in the private registry first, then among the derived files of the legacy
+// generations (they are not registered anywhere).
+type withGlobal struct{ own *protoregistry.Files }
+
+func legacyFiles() []protoreflect.FileDescriptor {
+	var out []protoreflect.FileDescriptor
+	for _, syntax := range []int{2, 3} {
+		for g := range genDates {
+			out = append(out, genType(syntax, g, "Message").Descriptor().ParentFile())
+		}
+	}
+	return out
+}
+
+func (w withGlobal) FindFileByPath(p string) (protoreflect.FileDescriptor, error) {
+	if fd, err := w.own.FindFileByPath(p); err == nil {
+		return fd, nil
+	}
+	for _, fd := range legacyFiles() {
+		if fd.Path() == p {
+			return fd, nil
+		}
+	}
+	return nil, protoregistry.NotFound
+}
+func (w withGlobal) FindDescriptorByName(n protoreflect.FullName) (protoreflect.Descriptor, error) {
+	if d, err := w.own.FindDescriptorByName(n); err == nil {
+		return d, nil
+	}
+	for _, fd := range legacyFiles() {
+		if !strings.HasPrefix(string(n), string(fd.Package())+".") {
+			continue
+		}
+		parts := strings.Split(strings.TrimPrefix(string(n), string(fd.Package())+"."), ".")
+		if d := fd.Enums().ByName(protoreflect.Name(parts[0])); d != nil && len(parts) == 1 {
+			return d, nil
+		}
+		md := fd.Messages().ByName(protoreflect.Name(parts[0]))
+		for _, p := range parts[1:] {
+			if md == nil {
+				break
+			}
+			if len(parts) > 1 && p == parts[len(parts)-1] {
+				if d := md.Enums().ByName(protoreflect.Name(p)); d != nil {
+					return d, nil
+				}
+			}
+			md = md.Messages().ByName(protoreflect.Name(p))
+		}
+		if md != nil {
+			return md, nil
+		}
+	}
+	return nil, protoregistry.NotFound
 }
 
 func (rs *refSchema) message(name string) protoreflect.MessageDescriptor {
